@@ -5,7 +5,7 @@ from common import *
 import numlib, pyfmt
 
 PID = "C09"
-TARGETS = ["Run.vo", "Fmt_proofs.vo"]
+TARGETS = ["Run.vo", "Fmt_proofs.vo", "NonVacuous/C09.vo"]
 IMPORTS = "From VF Require Import Base Show Gen_Errors Lexer Response Conv Enum Run."
 ALLOWED_AXIOMS = []
 PROFILES = ["debug", "release"]
